@@ -491,6 +491,18 @@ def build_messages(env: Env, broker: ScriptedBroker, cfg: Dict[str, Any]) -> Non
 
 def _make_ack(env: Env, idx: int, cfg: Dict[str, Any]) -> Any:
     fail = cfg["msgs"][idx - 1].get("ackfail", False)
+    if cfg.get("ackfut"):
+        def fack() -> Any:
+            if fail:
+                env.rec("ack", m=idx, x=CUR_M.get())
+                raise ConnectionError("ack failed")
+
+            async def body() -> None:
+                env.rec("ack", m=idx, x=CUR_M.get())
+                await env.gate(("ack", idx, 0))
+                env.rec("ack_e", m=idx, x=CUR_M.get())
+            return asyncio.ensure_future(body())
+        return fack
     if cfg.get("ackasync"):
         async def aack() -> None:
             env.rec("ack", m=idx, x=CUR_M.get())
@@ -574,6 +586,7 @@ def run(scn: Dict[str, Any]) -> List[Dict[str, Any]]:
                 await run_receiver_task(
                     broker, receiver_cls=ObservedReceiver, validate_params=True, max_async_tasks=cfg.get("A", 0),
                     max_prefetch=cfg.get("P", 0), propagate_exceptions=cfg.get("propagate", True), run_startup=True,
+                    sync_workers=(11 if len(cfg["msgs"]) % 2 == 0 else None),   # must not influence flow control
                     ack_time=ACK[cfg.get("ack", "default")],
                 )
                 env.rec("ret")
@@ -740,6 +753,10 @@ def _run_cli(scn: Dict[str, Any], cfg: Dict[str, Any], loop: VLoop, env: Env, br
 
     argv = ["verifmod:broker", "--receiver", "verifmod:Receiver", "--no-configure-logging",
             "--max-async-tasks", str(cfg.get("A", 0)), "--max-prefetch", str(cfg.get("P", 0))]
+    # options that must NOT influence flow control, with values that would show if they leaked into it
+    if len(cfg["msgs"]) % 2 == 0:
+        argv += ["--max-process-pool-processes", "11", "--max-threadpool-threads", "13", "--shutdown-timeout", "17",
+                 "--max-fails", "19", "--workers", "23", "--hardkill-count", "29", "--log-level", "ERROR", "--tasks-pattern", "x.py"]
     if cfg.get("ack", "default") != "default":
         argv += ["--ack-type", cfg["ack"]]
     if cfg.get("N"):
